@@ -314,6 +314,20 @@ func (st *flowState) fieldLeaf(chain string, root ssa.Value, at ssa.Value, depth
 func (st *flowState) load(x *ssa.UnOp, depth int) {
 	switch a := x.X.(type) {
 	case *ssa.Alloc:
+		// the latest store to the same local earlier in this block wins
+		// (defer-spilled named results: `err = f(); return` stores then loads)
+		if !allocEscapes(a) {
+			stores, fromEntry := StoresReaching(x, a)
+			if len(stores) > 0 || fromEntry {
+				for _, s := range stores {
+					st.val(s.Val, depth)
+				}
+				if fromEntry {
+					st.leaf(Src{Kind: "zero", Name: "unassigned:" + a.Comment, Val: a})
+				}
+				return
+			}
+		}
 		st.allocStores(a, -1, depth)
 	case *ssa.FieldAddr:
 		chain, root := st.w.FieldChain(a)
@@ -583,4 +597,60 @@ func CompositeFieldValue(al *ssa.Alloc, field string) (ssa.Value, bool) {
 		}
 	}
 	return nil, false
+}
+
+// lastStoreBefore finds the last Store to alloc a that precedes load in the
+// same basic block, provided the address is not handed to a call in between.
+func lastStoreBefore(load *ssa.UnOp, a *ssa.Alloc) *ssa.Store {
+	b := load.Block()
+	if b == nil {
+		return nil
+	}
+	idx := -1
+	for i, in := range b.Instrs {
+		if in == ssa.Instruction(load) {
+			idx = i
+			break
+		}
+	}
+	for i := idx - 1; i >= 0; i-- {
+		switch y := b.Instrs[i].(type) {
+		case *ssa.Store:
+			if y.Addr == a {
+				return y
+			}
+		case ssa.CallInstruction:
+			for _, arg := range y.Common().Args {
+				if arg == a {
+					return nil
+				}
+			}
+		}
+	}
+	return nil
+}
+
+// allocEscapes: the local's address is used by anything other than direct
+// loads and stores (field/index addressing, calls, closures): then the
+// reaching-definition shortcut is not applicable.
+func allocEscapes(a *ssa.Alloc) bool {
+	if a.Referrers() == nil {
+		return false
+	}
+	for _, r := range *a.Referrers() {
+		switch y := r.(type) {
+		case *ssa.Store:
+			if y.Addr != a {
+				return true
+			}
+		case *ssa.UnOp:
+			if y.Op != token.MUL {
+				return true
+			}
+		case *ssa.DebugRef:
+		default:
+			return true
+		}
+	}
+	return false
 }
